@@ -434,3 +434,6 @@ _app("C07", "text", " Model._run is re-translated from model.py on every run (to
 _app("C06", "text", " Staging on DAGs of any size (coq/proofs/FitSem_dag_proofs.v): the loop is greedy, the stage of a readout equals its offline depth, at most one round per offline node "
      "(C06_staging_earliest, C06_staging_stage_exact, C06_staging_rounds_bound); validity of the symbolic execution is proved unbounded for chains only and bounded for <= 5 nodes (all fan-in "
      "orders), 6 nodes (sorted fan-in) and forests <= 7; the general validity statement needs the topological-order hypothesis (its unguarded form is refuted) and stays open.")
+_app("C07", "text", " Model.run's loop over the sequences is translated on every run too (tools/vlib/py2coq_mrun2.py -> coq/gen/Gen_mrun2.v) and proved equal to the fold of run_op over the sequences "
+     "under the outer with_state (C07_generated_model_run_seqs); to_data_mapping / fold_mapping stay on the hand model coq/model/Mapping.v + correspondence.")
+_app("C03", "text", " The generated link raises ValueError iff some visited (sender output, receiver input) pair joins two initialised nodes of different dimensions (C03_generated_link_dim_clash).")
